@@ -800,5 +800,5 @@ def replay(ctx, path):
 
 MANIFEST = dict(
     technique='Coq proof (per-copy transliteration of the item-definition / variable / type closures, refinement to a generic Spec, conformance laws for all type trees and values, output coercion from C16) with model/code correspondence on generated DMN documents',
-    text='Theorems (coq/Props/C11.v, closed under the global context) for every item-definition tree (simple, referenced, component, collection-of each; allowed values; references followed with fuel) and every value: the 8+8+8+16 copy-pasted closures compute one generic function each; the per-copy model equals the Spec; conforming values pass unchanged; the result conforms (up to nulled components) or is null; checking is idempotent; a component type judges each component on its own; results are coerced to the output type as identity / wrap / unwrap / null (C16). The Spec `check` shares its arms with the per-copy model, so the content against an INDEPENDENT specification is separate (coq/C11/ConfModel.v: resolve = the type tree with references followed, defined iff the fuel covers it; conforms_to = conformance by recursion on the type, C16 type_of for simple types, allowed values, exactly the declared components, every item; spec; none mentions eval_item): a conforming value reaches the decision unchanged for every type (C11_eval_item_conforming_unchanged); for the types judged as a whole (simple, collection of simple, references to such) eval_item = the value if it conforms, else null (C11_eval_item_spec); that plain equation is FALSE for component types (C11_plain_equation_refuted: only the non-conforming component is nulled, as the property words it), and for every type eval_item = spec = conforming unchanged, else component-wise / item-wise, else null (C11_eval_item_spec_general); undeclared entries of a context are dropped, a context lacking a declared component is null as a whole, null conforms to nothing and stays null (C11_extra_entries_dropped, C11_extra_entries_result, C11_missing_component_null, C11_null_not_conforming, C11_null_stays_null; observed on the real code first). Fuel: once it covers the tree the resolved tree, the declared FEEL type and the output coercion are fuel-independent (C11_resolve_fuel_independent, C11_idef_type_declared, C11_var_type_fuel_sufficient, C11_output_fuel_sufficient); the declared type falls back to Any only when the chain of type references ends in an undefined name (C11_var_type_declared), below that fuel it silently becomes Any (C11_var_type_low_fuel), and the check evaluates the fuel condition for every generated input and output type; the output side is one equation (C11_output_spec, C16 coerced_spec). The check also evaluates spec on every input case. The literal null among allowed values (UNull): inert in the Spec wherever it stands (C11_null_alternative_inert); the code\'s scan, which stops at it (av_ok_code), never admits what the Spec rejects, is the Spec without a null or with the null last, and differs exactly when the value satisfies only an alternative behind the first null (C11_null_alternative_code_sound / _last_agrees / _code_vs_spec; witness C11_null_alternative_first_refuted = the listed finding null-alternative-first, run against the real code every time). Tied to model-evaluator/src/builders/{item_definition,item_definition_type,mod,decision}.rs by evaluating generated documents (all kinds to depth 3, values conforming and violating at every tree position) through evaluate_invocable; on the output side typed decisions, knowledge models and decision services are evaluated directly and the typed knowledge models and services are also invoked from untyped decisions through boxed invocations (also inside a boxed context) and by FEEL calls, each compared with output_value of the callee\'s declared type.',
+    text='Theorems (coq/Props/C11.v, closed under the global context) for every item-definition tree (simple, referenced, component, collection-of each; allowed values; references followed with fuel) and every value: the 8+8+8+16 copy-pasted closures compute one generic function each; the per-copy model equals the Spec; conforming values pass unchanged; the result conforms (up to nulled components) or is null; checking is idempotent; a component type judges each component on its own; results are coerced to the output type as identity / wrap / unwrap / null (C16). The Spec `check` shares its arms with the per-copy model, so the content against an INDEPENDENT specification is separate (coq/C11/ConfModel.v: resolve = the type tree with references followed, defined iff the fuel covers it; conforms_to = conformance by recursion on the type, C16 type_of for simple types, allowed values, exactly the declared components, every item; spec; none mentions eval_item): a conforming value reaches the decision unchanged for every type (C11_eval_item_conforming_unchanged); for the types judged as a whole (simple, collection of simple, references to such) eval_item = the value if it conforms, else null (C11_eval_item_spec); that plain equation is FALSE for component types (C11_plain_equation_refuted: only the non-conforming component is nulled, as the property words it), and for every type eval_item = spec = conforming unchanged, else component-wise / item-wise, else null (C11_eval_item_spec_general); undeclared entries of a context are dropped, a context lacking a declared component is null as a whole, null conforms to nothing and stays null (C11_extra_entries_dropped, C11_extra_entries_result, C11_missing_component_null, C11_null_not_conforming, C11_null_stays_null; observed on the real code first). Fuel: once it covers the tree the resolved tree, the declared FEEL type and the output coercion are fuel-independent (C11_resolve_fuel_independent, C11_idef_type_declared, C11_var_type_fuel_sufficient, C11_output_fuel_sufficient); the declared type falls back to Any only when the chain of type references ends in an undefined name (C11_var_type_declared), below that fuel it silently becomes Any (C11_var_type_low_fuel), and the check evaluates the fuel condition for every generated input and output type; the output side is one equation (C11_output_spec, C16 coerced_spec). The check also evaluates spec on every input case. The document order of the item definitions is irrelevant: a list of definitions with distinct names and any permutation of it give the same checked input, the same FEEL type of a typed variable and the same coerced result, forward references included (C11_definition_order_irrelevant; the check writes the definitions in a shuffled order). The literal null among allowed values (UNull): inert in the Spec wherever it stands (C11_null_alternative_inert); the code\'s scan, which stops at it (av_ok_code), never admits what the Spec rejects, is the Spec without a null or with the null last, and differs exactly when the value satisfies only an alternative behind the first null (C11_null_alternative_code_sound / _last_agrees / _code_vs_spec; witness C11_null_alternative_first_refuted = the listed finding null-alternative-first, run against the real code every time). Tied to model-evaluator/src/builders/{item_definition,item_definition_type,mod,decision}.rs by evaluating generated documents (all kinds to depth 3, values conforming and violating at every tree position) through evaluate_invocable; on the output side typed decisions, knowledge models and decision services are evaluated directly and the typed knowledge models and services are also invoked from untyped decisions through boxed invocations (also inside a boxed context) and by FEEL calls, each compared with output_value of the callee\'s declared type.',
     note='Trusted: Coq kernel + vm_compute, hand-written models (correspondence-checked, not verified), harness, FEEL parsing/evaluation of the generated literals and unary tests (sampled, not proved). Fixed: referenced types ignored their own allowed values; the allowed values of a collection were tested on the whole list.')
